@@ -17,7 +17,7 @@
     markup_attrs_conservative
     flat_cache_inv_initial flat_cache_inv_preserved flat_cache_inv flat_cache_entry_bindings_only
     flatten_cache_irrelevant_full flatten_cached_is_xml_flatten flat_cache_stale_entry_violates_inv
-    flat_cache_typed_key_collision_witness
+    flat_cache_typed_key_collision_witness ser_cache_irrelevant_full
 -/
 import Genshi.Lemmas.Output
 import Genshi.Lemmas.OutputFlatten
@@ -28,6 +28,7 @@ import Genshi.Lemmas.OutputSafeText
 import Genshi.Lemmas.OutputMarkupAttr
 import Genshi.Lemmas.OutputFlattenCacheC
 import Genshi.Model.OutputPipeline
+import Genshi.Model.OutputFlatPipeline
 namespace Genshi.Props.C09
 open Genshi Genshi.Output
 
@@ -260,6 +261,18 @@ theorem flat_cache_typed_key_collision_witness :
     Xml.cflatten Xml.defaultPref true [.tag false ⟨[], ['a']⟩ aM, .tag false ⟨[], ['a']⟩ aP] =
       [.tag false ['a'] [(['t'], (['x', '&', 'y'], true))], .tag false ['a'] [(['t'], (['x', '&', 'y'], false))]] := by
   decide
+
+/-- The serializer behind `EmptyTagFilter` (`strip_whitespace=False`, no doctype option) on the
+    FULL namespace domain with typed attribute values: `NamespaceFlattener(prefixes, cache)`
+    followed by the main loop of the method, both given the same `cache` argument — the text
+    written with `cache=True` is the text written with `cache=False`, for every method, option
+    setting, preferred-prefix mapping and stream. -/
+theorem ser_cache_irrelevant_full (m : Method) (o : Opts) (pref : List (Str × Str)) (evs : List Xml.TXEv) :
+    serT m o pref true evs = serT m o pref false evs := by
+  simp only [serT, flatten_cache_irrelevant_full, cache_unobservable_markup_attrs]
+
+example : serT .xml {} Xml.defaultPref true exFlat =
+    "<a xmlns=\"u\"><a><a/></a></a><a xmlns=\"u\"/>".toList := by decide
 
 /-! ### the whole serializer (filters included), on the modelled (lite namespace) domain -/
 
